@@ -157,6 +157,7 @@ func (c *FuncContract) Key() string {
 }
 
 type SpecFile struct {
+	ArgOrders []ArgOrderDecl
 	Effects []EffectDecl
 	Pkg    string
 	Funcs  []*FuncContract
@@ -542,7 +543,7 @@ var clauseKeywords = map[string]bool{
 	"uses": true, "prop": true, "trusted": true, "invariant": true, "panics_when": true, "inline": true,
 	"induction": true, "trigger": true, "expect": true, "fuel": true, "exempt": true, "cover": true, "nopanic": true, "uses_post": true, "panic_requires": true,
 }
-var declKeywords = map[string]bool{"spec": true, "lemma": true, "ghost": true, "func": true, "loop": true, "pred": true, "effects": true, "package-effects": true}
+var declKeywords = map[string]bool{"spec": true, "lemma": true, "ghost": true, "func": true, "loop": true, "pred": true, "effects": true, "package-effects": true, "argorder": true}
 
 // parseSpecText parses the concatenated //@ lines of one package.
 func parseSpecText(pkg string, lines []string) (sf *SpecFile, err error) {
@@ -662,6 +663,15 @@ func parseSpecText(pkg string, lines []string) (sf *SpecFile, err error) {
 				panic(fmt.Errorf("spec: effects needs a function"))
 			}
 			sf.Effects = append(sf.Effects, EffectDecl{Key: pkg + "." + fs[0], Effects: fs[1:]})
+		case "argorder":
+			// argorder <property> <function> <called method> a b c ...: in <function>, the call of <called method> lists the
+			// string constants a, b, c (among its arguments) in this relative order
+			curF, curL, curLoop, curS = nil, nil, nil, nil
+			fs := strings.Fields(it.text)
+			if len(fs) < 5 {
+				panic(fmt.Errorf("spec: argorder <property> <function> <method> <name> <name> ..."))
+			}
+			sf.ArgOrders = append(sf.ArgOrders, ArgOrderDecl{Prop: fs[0], Func: pkg + "." + fs[1], Method: fs[2], Names: fs[3:]})
 		case "package-effects":
 			curF, curL, curLoop, curS = nil, nil, nil, nil
 			sf.Effects = append(sf.Effects, EffectDecl{Key: "package:" + pkg, Effects: strings.Fields(it.text)})
